@@ -34,6 +34,7 @@ def run(ctx, R, tier):
     R.rule("C10-R5", "housekeeping deletes only under a lifetime / linger comparison (directly or through a flag whose every definition is one), under the housekeeper lock; both expiries exist; the lifetime test does not depend on the linger state", floor=3)
     R.rule("C10-R6", "client iterator drops its proxy on StopIteration/GeneratorExit; close sends close_stream only while connected", floor=2)
 
+    R.rule("C10-R7", "the stream table is per daemon: created fresh in __init__", floor=1)
     g = ctx.fn("Pyro5.server.DaemonObject.get_next_stream_item")
     gcfg = ctx.cfg(g)
     sid = g.params[1]
@@ -276,3 +277,7 @@ def run(ctx, R, tier):
     ok = bool(sends) and all(ccfg.guarded(n, lambda e: edge_has_fact(e, connected)) for c in sends for n in ctx.node_of(cl, c))
     R.check(ok, "C10-R6", "close|only-while-connected", "close_stream is sent only while the proxy is connected", cl.loc(),
             "closing a stream of a disconnected proxy would reconnect / raise")
+
+    # ---------------------------------------------------------------- R7
+    from .common import fresh_per_instance
+    fresh_per_instance(ctx, R, "C10-R7", "Pyro5.server.Daemon", "streaming_responses", "daemons would share one stream table: housekeeping or shutdown of one daemon drops the streams of another")
